@@ -8,7 +8,9 @@ from harness import rbgen
 ID = "C03"
 RULE = ("(rulebook text, vendor, old, new): random patching rulebooks over the rule grammar (nesting<=3, %global, %ordered, "
         "%rewrite, !ignore, common logics), config pairs instantiating the rules (drops, additions, value changes, "
-        "reorderings, unknown rows, 10% with several rows per (rule,key)); plus self-diff cases (old == new); non-trivial = "
+        "reorderings, unknown rows, 10% with several rows per (rule,key)); plus self-diff cases (old == new); plus the small "
+        "space (30 rulebooks `a * [P] / x * [Q]`, `b` x all ordered pairs of 104 configurations over {a 1, a 2, b} / "
+        "{x 1, x 2}: 324480 cases) exhaustively in the thorough tier and one 64th of it in the quick tier; non-trivial = "
         "the stripped diff has >=2 entries and >=2 different ops or nesting; distinct = distinct case")
 TRUSTED_BASE = [
     "Lean 4.33 kernel; axioms per theorem listed (subset of propext, Classical.choice, Quot.sound)",
@@ -26,10 +28,20 @@ def setup_worker():
 
 def shards(tier, seed):
     n = 250 if tier == "quick" else 30000
-    return [dict(seed=seed * 1000 + i, n=n) for i in range(16)]
+    out = [dict(seed=seed * 1000 + i, n=n) for i in range(16)]
+    # the small space (30 rulebooks x 104 x 104 ordered config pairs), exhaustively in the thorough tier, one 64th of it
+    # (chosen by the seed) in the quick tier
+    if tier == "quick":
+        out += [dict(kind="small", part=(seed * 4 + i) % 256, parts=256) for i in range(4)]
+    else:
+        out += [dict(kind="small", part=i, parts=32) for i in range(32)]
+    return out
 
 
 def gen(desc):
+    if desc.get("kind") == "small":
+        yield from rbgen.small_cases(desc["part"], desc["parts"])
+        return
     rng = random.Random(desc["seed"])
     for _ in range(desc["n"]):
         c = rbgen.gen_case(rng)
